@@ -204,7 +204,7 @@ pub fn build_corpus() -> Vec<Seed> {
         name: "sixels.ans".into(),
         bytes: {
             let small = |col: u8| format!("\x1bPq\"1;1;6;6#{col};2;100;0;0#{col}!6~\x1b\\");
-            let big = "\x1bPq\"1;1;40;18#3;2;0;100;0#3!40~-!40~-!40~\x1b\\";
+            let big = "\x1bPq\"1;1;40;36#3;2;0;100;0#3!40~-!40~-!40~-!40~-!40~-!40~\x1b\\";
             format!("\x1b[2;2H{}\x1b[2;4H{}\x1b[1;1H{big}\x1b[2;30H{}\x1b[1;1H{big}\x1b[10;1Htext\r\n", small(1), small(2), small(4)).into_bytes()
         },
     });
